@@ -384,6 +384,49 @@ def parse_spec(line):
     return r
 
 
+# --------------------------------------------------------------------------- fix detection / model variant
+# FLAGS[0]: "<fw><fz>" -- which fix candidates the compiler under test contains (fw: C10-1-fix.diff, a
+# wider-than-usize index is compared in its own width; fz: C10-2-fix.diff, zero-sized elements are still
+# evaluated and checked).  "00" = the unrepaired code: the model is Model/IndexCheck.v exactly as before;
+# otherwise Model/IndexCheckFixed.v compf/execf with those flags (C10_fixed_except_known / C10_fixed_full).
+FLAGS = ["00"]
+
+WIDE_WITNESS = ("putchar :: (c: char) extern;\nmain :: () {\n    arr := i32.[1, 2, 3, 4];\n"
+                "    i : u128 = 18446744073709551615;\n    i = i + 2;\n    putchar('A');\n    x := arr[i];\n"
+                "    putchar(char.(u8.(48 + x)));\n    putchar('X');\n}\n")
+ZST_WITNESS = ("putchar :: (c: char) extern;\nE :: struct {};\nside :: () -> usize { putchar('S'); 7 }\n"
+               "main :: () {\n    arr := E.[E.{}, E.{}];\n    putchar('A');\n    x := arr[side()];\n    putchar('X');\n}\n")
+
+
+def detect_fixes(capy):
+    """Probe the built compiler once with the witness programs of findings C10-1 and C10-2.
+    VERIF_C10_FIXED (e.g. "1,2", "2", "") overrides the probe."""
+    env = os.environ.get("VERIF_C10_FIXED")
+    probes = {}
+    for name, src, fixed_out in (("1", WIDE_WITNESS, "A"), ("2", ZST_WITNESS, "AS")):
+        rc, out, run = build_only_stdin((capy, src, ""))
+        ok = (run is not None and run[0] == 1 and "array index out of bounds" in run[1]
+              and run[1].startswith(fixed_out + "\n") and "X" not in run[1].split("\n")[0])
+        probes[name] = {"fixed": ok, "build_rc": rc, "run": run}
+    if env is not None:
+        want = [x.strip() for x in env.split(",") if x.strip()]
+        flags = ("1" if "1" in want else "0") + ("1" if "2" in want else "0")
+        src_ = "env VERIF_C10_FIXED=%r" % env
+    else:
+        flags = ("1" if probes["1"]["fixed"] else "0") + ("1" if probes["2"]["fixed"] else "0")
+        src_ = "probe"
+    FLAGS[0] = flags
+    return {"flags": flags, "source": src_, "probes": probes}
+
+
+def ask(drv, lines):
+    """Query the extracted models; X / K lines are redirected to the fixed variants when FLAGS != 00."""
+    if FLAGS[0] != "00":
+        lines = [("XF %s %s" % (FLAGS[0], l[2:])) if l.startswith("X ") else
+                 ("KF %s %s" % (FLAGS[0], l[2:])) if l.startswith("K ") else l for l in lines]
+    return C.run_lines([drv], lines, indexed=False)
+
+
 ABORT_TEXT = {"A": "array index out of bounds", "S": "slice index out of bounds"}
 
 
@@ -395,11 +438,17 @@ def build(capy, d, name, src):
 
 
 def run_exe(exe, stdin_text):
-    try:
-        p = subprocess.run([exe], input=stdin_text.encode(), stdout=subprocess.PIPE, stderr=subprocess.PIPE, timeout=20)
-        return p.returncode, p.stdout.decode("latin-1")
-    except subprocess.TimeoutExpired as e:
-        return 124, (e.stdout or b"").decode("latin-1")
+    """Run a compiled test program.  A timeout on the (shared, loaded) machine is retried with a much
+    longer limit before it is reported as rc 124, so that scheduling delays never look like hangs."""
+    last = (124, "")
+    for limit in (60, 300):
+        try:
+            p = subprocess.run([exe], input=stdin_text.encode(), stdout=subprocess.PIPE, stderr=subprocess.PIPE,
+                               timeout=limit)
+            return p.returncode, p.stdout.decode("latin-1")
+        except subprocess.TimeoutExpired as e:
+            last = (124, (e.stdout or b"").decode("latin-1"))
+    return last
 
 
 def case_stdin(sh, rw, idx):
@@ -464,8 +513,8 @@ def run_scn(args):
 # --------------------------------------------------------------------------- index stream
 def index_stream(fl, capy, drv, tier):
     v = fl.v
-    nprog = 12 if tier == "quick" else 160
-    per_mode = 6 if tier == "quick" else 12
+    nprog = 12 if tier == "quick" else 32
+    per_mode = 6 if tier == "quick" else 9
     g = fl.rng.fork("scn")
     scns = []
     cdir = os.path.join(C.CORPUS, "C10")
@@ -489,8 +538,8 @@ def index_stream(fl, capy, drv, tier):
         for sh, rw, idx in cases:
             mlines.append(s.model_line(sh, rw, idx))
             slines.append(s.spec_line(sh, idx))
-    mres = C.run_lines([drv], mlines, indexed=False)
-    sres = C.run_lines([drv], slines, indexed=False)
+    mres = ask(drv, mlines)
+    sres = ask(drv, slines)
     k = 0
     jobs2 = []
     for capy_, s, cases in jobs:
@@ -673,13 +722,13 @@ def run_enum(args):
 
 def unwrap_stream(fl, capy, drv, tier):
     v = fl.v
-    nprog = 10 if tier == "quick" else 80
+    nprog = 10 if tier == "quick" else 30
     g = fl.rng.fork("enum")
     enums = [gen_enum(g, overflow=(i % 5 == 4)) for i in range(nprog)]
     # always present: the smallest declaration whose automatic discriminant leaves the 8-bit tag
     enums[0] = [{"payload": None, "manual": None}, {"payload": None, "manual": 255}, {"payload": ("i32", 4), "manual": None}]
     dl = ["D " + " ".join("-" if x["manual"] is None else "%x" % x["manual"] for x in vs) for vs in enums]
-    dres = C.run_lines([drv], dl, indexed=False)
+    dres = ask(drv, dl)
     jobs = []
     mlines = []
     meta = []
@@ -703,7 +752,7 @@ def unwrap_stream(fl, capy, drv, tier):
                 mlines.append("X 1010=%x M 64 UT 10 %x 1000 %x M 65" % (h, 0 if (k == 1 and w == 0) else 8, w))
         jobs.append((capy, vs, cases))
         meta.append((ds, ovf))
-    mres = C.run_lines([drv], mlines, indexed=False)
+    mres = ask(drv, mlines)
     results = C.parallel_map(run_enum, jobs)
     k = 0
     ncase = diffs = 0
@@ -799,7 +848,7 @@ def literal_stream(fl, capy, drv, tier):
     v = fl.v
     g = fl.rng.fork("lit")
     cases = []
-    nrand = 40 if tier == "quick" else 300
+    nrand = 40 if tier == "quick" else 150
     for kind in ("arr", "ptr", "pptr", "slice"):
         for n, idx in ((1, 0), (1, 1), (3, 2), (3, 3), (3, 4), (4, 7)):
             cases.append((kind, "i32", n, idx, 0))
@@ -812,7 +861,7 @@ def literal_stream(fl, capy, drv, tier):
     for kind, T, n, idx, rw in cases:
         base = "s %s" % tyt[T] if kind == "slice" else "%sa %x %s" % ({"arr": "", "ptr": "p ", "pptr": "p p "}[kind], n, tyt[T])
         ml.append("L %x %s" % (idx, base))
-    mres = C.run_lines([drv], ml, indexed=False)
+    mres = ask(drv, ml)
     rres = C.parallel_map(build_only, [(capy, lit_program(*c)) for c in cases])
     diffs = 0
     first = None
@@ -848,7 +897,7 @@ def literal_stream(fl, capy, drv, tier):
     itys = [("u8", 8, "u"), ("u16", 16, "u"), ("u32", 32, "u"), ("u64", 64, "u"), ("usize", 64, "u"), ("u128", 128, "u"),
             ("i8", 8, "s"), ("i16", 16, "s"), ("i32", 32, "s"), ("i64", 64, "s"), ("isize", 64, "s"), ("i128", 128, "s")]
     tl = ["T %x %s" % (b, s) for _, b, s in itys]
-    tres = C.run_lines([drv], tl, indexed=False)
+    tres = ask(drv, tl)
 
     def ity_prog(name):
         return ("putchar :: (c: char) extern;\nmain :: () {\n    a := i32.[1, 2, 3, 4];\n    i : %s = 2;\n"
@@ -868,10 +917,14 @@ def literal_stream(fl, capy, drv, tier):
 
 # --------------------------------------------------------------------------- known-finding classes
 def known_stream(fl, capy, drv, tier):
+    """Inputs of the known-finding classes.  The model variant in force (FLAGS) must predict the real
+    behaviour exactly; the spec (index outside [0, len) aborts after the index expression was evaluated,
+    an index inside evaluates it and goes on) decides whether the input is a failing one; its class comes
+    from the extracted classifier known_class / known_class_f."""
     v = fl.v
     g = fl.rng.fork("known")
-    progs = []   # (class kind, params, source, stdin, model line, spec expectation)
-    reps = 3 if tier == "quick" else 12
+    progs = []   # (kind, params, source, stdin, model line, classifier line, spec-expected stdout or None=abort)
+    reps = 3 if tier == "quick" else 8
     for _ in range(reps):
         n = g.range(2, 6)
         j = g.range(0, n - 1)
@@ -881,63 +934,78 @@ def known_stream(fl, capy, drv, tier):
                % ", ".join(str(10 + q) for q in range(n)))
         progs.append(("wide", {"len": n, "index": (1 << 64) + j}, src, "%d\n" % j,
                       "X - M 64 R idx 80 u - %x root a %x i4 10008 M 65" % ((1 << 64) + j, n), "K 80 a %x i4" % n,
-                      10 + j))
-    for _ in range(reps):
+                      None, {0x10008 + 4 * q: 10 + q for q in range(n)}))
+    for r in range(2 * reps):
         n = g.range(1, 4)
-        i = n + g.range(0, 4)
+        i = (n + g.range(0, 4)) if r % 2 == 0 else g.range(0, n - 1)
         src = (PRELUDE + "E :: struct {};\nk0 :: (v: usize) -> usize { putchar('a'); v }\nmain :: () {\n"
                "    a : [%d]E = .[%s];\n    d := rd();\n    putchar('A'); putchar('\\n');\n    x := a[k0(usize.(d))];\n"
                "    putchar('\\n');\n    putchar('Z'); putchar('\\n');\n}\n" % (n, ", ".join("E.{}" for _ in range(n))))
         progs.append(("zst", {"len": n, "index": i}, src, "%d\n" % i,
-                      "X - M 64 R idx 40 u 1 %x root a %x z 10008 M 65" % (i, n), "K 40 z", None))
+                      "X - M 64 R idx 40 u 1 %x root a %x z 10008 M 65" % (i, n), "K 40 z",
+                      ("A\na\nZ\n" if i < n else None), {}))
     ml = [p[4] for p in progs] + [p[5] for p in progs]
-    mres = C.run_lines([drv], ml, indexed=False)
+    mres = ask(drv, ml)
     rres = C.parallel_map(build_only_stdin, [(capy, p[2], p[3]) for p in progs])
     diffs = 0
     first = None
     for qi, (p, (rc, out, run)) in enumerate(zip(progs, rres)):
-        kind, params, src, stdin, _, _, val = p
+        kind, params, src, stdin, _, _, spec_out, vals = p
         mline, kline = mres[qi], mres[len(progs) + qi]
         mod = parse_model(mline)
         payload = {"key": "known:%s:%s" % (kind, params), "stream": "known-classes", "params": params, "source": src,
                    "stdin": stdin, "capy_rc": rc, "run": run, "model": mline, "extracted_known_class": kline,
-                   "spec_expects": "index >= length: abort with 'array index out of bounds', exit 1"}
+                   "model_variant_flags": FLAGS[0],
+                   "spec_expects": ("stdout %r, exit 0" % spec_out) if spec_out is not None else
+                   "index >= length: abort with 'array index out of bounds' after the index was evaluated, exit 1"}
         if run is None:
             fl.broken.append({"what": "capy failed on a known-class probe", "output": out[-1500:], "source": src})
             continue
         rrc, rout = run
         aborted = rrc == 1 and "array index out of bounds" in rout
-        # correspondence: the faithful model predicts what the compiler does
-        if kind == "wide":
-            want = "A\n=%d\nZ\n" % val
+        # what the model variant in force predicts
+        if "crash" in mod:
+            want = None
+        elif mod["aborted"]:
+            want = "A\n" + mod["markers"] + "\n\nin "
         else:
-            want = "A\n\nZ\n"
-        model_no_abort = ("crash" not in mod) and not mod["aborted"]
-        if model_no_abort != (not aborted) or (not aborted and rout != want):
+            acc = mod["access"]
+            shown = ("=%d" % vals.get(acc[1] if acc else None, -1)) if kind == "wide" else ""
+            want = "A\n" + mod["markers"] + shown + "\nZ\n"
+        ok_model = want is not None and ((mod["aborted"] and aborted and rout.startswith(want)) or
+                                         (not mod["aborted"] and not aborted and rout == want and rrc == 0))
+        if not ok_model:
             diffs += 1
-            first = first or dict(payload, why="real behaviour differs from model")
-        if not aborted:
-            cls = {"wide": K_WIDE, "zst": K_ZST}.get(kline, "out-of-range-read-not-aborted:unclassified")
+            first = first or dict(payload, why="real behaviour differs from the model variant in force",
+                                  model_expects=want)
+        ok_spec = (aborted and rout.startswith("A\n" + ("a" if kind == "zst" else "") + "\n\nin ")) \
+            if spec_out is None else (rrc == 0 and rout == spec_out)
+        if not ok_spec:
+            cls = {"wide": K_WIDE, "zst": K_ZST}.get(kline, "index-check-wrong-on-former-known-class:%s" % kind)
             v.failing(cls, payload)
-    fl.stream("known classes: u128 index / zero-sized element vs faithful model", len(progs), diffs, first)
+    fl.stream("known classes: u128 index / zero-sized element vs the model variant in force", len(progs), diffs, first)
     v.coverage["evaluations"] += len(progs)
 
-    # compiler panic on a zero-length inner array (model: Crash 930 = compile_expr(source).unwrap())
+    # zero-length inner array: unrepaired compiler panics (model: Crash 930 = compile_expr(source).unwrap());
+    # with C10-2-fix the program compiles and every index aborts
     src = (PRELUDE + "get :: (a: [][0]i32, i: usize, j: usize) -> i32 { a[i][j] }\nmain :: () {\n"
            "    arr : [2][0]i32 = .[i32.[], i32.[]];\n    x := get(arr, rd(), rd());\n    putchar('Z');\n}\n")
-    mres = C.run_lines([drv], ["X 2000=2,2008=3000 R idx 40 u - 0 idx 40 u - 1 root s a 0 i4 2000"], indexed=False)
+    mres = ask(drv, ["X 2000=2,2008=3000 R idx 40 u - 0 idx 40 u - 1 root s a 0 i4 2000"])
     rc, out, run = build_only_stdin((capy, src, "1\n0\n"))
     panicked = rc != 0 and "panicked" in out and "functions.rs" in out
     model_crash = mres[0].startswith("CRASH930")
-    fl.stream("known classes: zero-length inner array (model Crash 930 iff compiler panics)", 1,
-              int(panicked != model_crash),
-              {"source": src, "capy_rc": rc, "capy_output": out[-1200:], "model": mres[0]})
+    run_aborts = run is not None and run[0] == 1 and "array index out of bounds" in run[1] and "Z" not in run[1]
+    model_aborts = mres[0].startswith("OK 1") and mres[0].endswith("P:A X:1")
+    bad = (panicked != model_crash) or (not panicked and run_aborts != model_aborts)
+    fl.stream("known classes: zero-length inner array (model Crash 930 iff compiler panics, else both abort)", 1,
+              int(bad), {"source": src, "capy_rc": rc, "capy_output": out[-1200:], "run": run, "model": mres[0]})
     v.coverage["evaluations"] += 1
     if panicked:
         v.failing(K_PANIC, {"key": "known:panic", "source": src, "capy_rc": rc, "capy_output": out[-1500:],
                             "model": mres[0]})
-    elif run is not None and not (run[0] == 1 and "index out of bounds" in run[1]):
-        v.failing("index-into-zero-length-inner-array-not-aborted", {"key": "known:panic2", "source": src, "run": run})
+    elif not run_aborts:
+        v.failing("index-into-zero-length-inner-array-not-aborted", {"key": "known:panic2", "source": src,
+                                                                      "capy_rc": rc, "capy_output": out[-800:], "run": run})
 
 
 def build_only_stdin(args):
@@ -956,6 +1024,12 @@ def run(tier, seed):
     drv = fl.driver()
     capy = fl.capy()
     if drv and capy:
+        det = detect_fixes(capy)
+        v.coverage["fix_candidates_detected"] = det
+        v.coverage["model_in_force"] = ("Model/IndexCheck.v (unrepaired code; C10_except_known applies)" if det["flags"] == "00"
+                                        else "Model/IndexCheckFixed.v compf fw=%s fz=%s (%s applies)"
+                                        % (det["flags"][0], det["flags"][1],
+                                           "C10_fixed_full" if det["flags"] == "11" else "C10_fixed_except_known"))
         index_stream(fl, capy, drv, tier)
         unwrap_stream(fl, capy, drv, tier)
         literal_stream(fl, capy, drv, tier)
